@@ -67,4 +67,129 @@ theorem Fw.run_inv (limit : Nat) (s : Fw) (evs : List FwEv) (h : s.Inv) : (Fw.ru
   | nil => exact h
   | cons e es ih => exact ih _ (Fw.step_inv limit s e h)
 
+/-! ## frames are neither duplicated nor reordered, and the peers are served in turn -/
+
+def fwKey (f : FwFrame) : Nat × Nat := (f.tag, f.idx)
+
+/-- the frames the application gave, in order -/
+def fwGiven : List FwEv → List (Nat × Nat)
+  | [] => []
+  | .send f :: r => fwKey f :: fwGiven r
+  | .sendMultipart fs :: r => fs.map fwKey ++ fwGiven r
+
+/-- the frames the socket has routed or still holds, in order -/
+def Fw.out (s : Fw) : List (Nat × Nat) := (s.got.flatMap (·.2) ++ s.parts).map fwKey
+
+theorem fwNormaliseMore_keys (fs : List FwFrame) : (fwNormaliseMore fs).map fwKey = fs.map fwKey := by
+  fun_induction fwNormaliseMore fs with
+  | case1 => rfl
+  | case2 f => rfl
+  | case3 f rest hne ih => simp only [List.map_cons, ih]; rfl
+
+theorem Fw.errors_step_mono (c : FwCfg) (s : Fw) (e : FwEv) : s.errors ≤ (Fw.step c s e).errors := by
+  cases e with
+  | send f =>
+    simp only [Fw.step]
+    split
+    · simp [Fw.route]
+    · split
+      · simp
+      · split <;> simp [Fw.route]
+  | sendMultipart fs =>
+    simp only [Fw.step]
+    split <;> simp [Fw.route]
+
+theorem Fw.errors_run_mono (c : FwCfg) (evs : List FwEv) (s : Fw) : s.errors ≤ (Fw.run c s evs).errors := by
+  induction evs generalizing s with
+  | nil => exact Nat.le_refl _
+  | cons e r ih => exact Nat.le_trans (Fw.errors_step_mono c s e) (ih _)
+
+/-- one step that discards nothing keeps every frame exactly once (a send_multipart call may overtake the frames of the
+message that is still being assembled, so the statement is about the multiset, the order inside a unit is `wholeUnit`'s
+and `units_keep_the_order_given`'s business) -/
+theorem Fw.out_step (limit : Nat) (s : Fw) (e : FwEv)
+    (h : (Fw.step { holdsParts := true, limit := limit } s e).errors = s.errors) :
+    ((Fw.step { holdsParts := true, limit := limit } s e).out).Perm (s.out ++ fwGiven [e]) := by
+  cases e with
+  | send f =>
+    simp only [Fw.step, Bool.not_true, Bool.false_eq_true, if_false, fwGiven, List.append_nil] at h ⊢
+    by_cases hl : s.parts.length ≥ limit
+    · simp only [hl, if_true] at h; omega
+    · simp only [hl, if_false]
+      cases hm : f.more with
+      | true => simp [Fw.out]
+      | false => simp [Fw.out, Fw.route]
+  | sendMultipart fs =>
+    simp only [Fw.step, fwGiven, List.append_nil]
+    cases fs with
+    | nil => simp
+    | cons a r =>
+      simp only [List.isEmpty_cons, Bool.false_eq_true, if_false]
+      simp only [Fw.out, Fw.route, List.flatMap_append, List.flatMap_cons, List.flatMap_nil, List.append_nil,
+        List.map_append, fwNormaliseMore_keys, List.append_assoc]
+      exact List.Perm.append_left _ List.perm_append_comm
+
+theorem fwGiven_cons (e : FwEv) (r : List FwEv) : fwGiven (e :: r) = fwGiven [e] ++ fwGiven r := by
+  cases e <;> simp [fwGiven]
+
+theorem Fw.out_run (limit : Nat) (evs : List FwEv) (s : Fw)
+    (h : (Fw.run { holdsParts := true, limit := limit } s evs).errors = s.errors) :
+    ((Fw.run { holdsParts := true, limit := limit } s evs).out).Perm (s.out ++ fwGiven evs) := by
+  induction evs generalizing s with
+  | nil => simp [Fw.run, fwGiven]
+  | cons e r ih =>
+    have h1 := Fw.errors_step_mono { holdsParts := true, limit := limit } s e
+    have h2 := Fw.errors_run_mono { holdsParts := true, limit := limit } r (Fw.step { holdsParts := true, limit := limit } s e)
+    simp only [Fw.run, List.foldl_cons] at h h2 ⊢
+    have hs : (Fw.step { holdsParts := true, limit := limit } s e).errors = s.errors := by omega
+    have := ih (Fw.step { holdsParts := true, limit := limit } s e) (by simp only [Fw.run]; omega)
+    simp only [Fw.run] at this
+    rw [fwGiven_cons, ← List.append_assoc]
+    exact this.trans (List.Perm.append_right _ (Fw.out_step limit s e hs))
+
+/-- the peers are served strictly in turn: the i-th routed unit goes to peer (start + i) mod peers -/
+theorem Fw.rr_step (c : FwCfg) (s : Fw) (e : FwEv) (k : Nat)
+    (h : s.cursor = k + s.got.length ∧ ∀ i (hi : i < s.got.length), (s.got[i]).1 = (k + i) % max s.peers 1) :
+    let t := Fw.step c s e
+    t.peers = s.peers ∧ t.cursor = k + t.got.length ∧ ∀ i (hi : i < t.got.length), (t.got[i]).1 = (k + i) % max t.peers 1 := by
+  have hroute : ∀ (s' : Fw) (u : List FwFrame), s'.peers = s.peers → s'.cursor = s.cursor → s'.got = s.got →
+      (s'.route u).peers = s.peers ∧ (s'.route u).cursor = k + (s'.route u).got.length ∧
+      ∀ i (hi : i < (s'.route u).got.length), ((s'.route u).got[i]).1 = (k + i) % max (s'.route u).peers 1 := by
+    intro s' u hp hc hg
+    refine ⟨by simp [Fw.route, hp], by simp [Fw.route, hc, hg, h.1]; omega, ?_⟩
+    intro i hi
+    simp only [Fw.route, hg, List.length_append, List.length_singleton] at hi ⊢
+    by_cases hlt : i < s.got.length
+    · rw [List.getElem_append_left hlt]; simpa [hp] using h.2 i hlt
+    · have : i = s.got.length := by omega
+      subst this
+      simp [hc, hp, h.1]
+  cases e with
+  | send f =>
+    simp only [Fw.step]
+    split
+    · exact hroute s _ rfl rfl rfl
+    · split
+      · exact ⟨rfl, h.1, h.2⟩
+      · split
+        · exact ⟨rfl, h.1, h.2⟩
+        · exact hroute _ _ rfl rfl rfl
+  | sendMultipart fs =>
+    simp only [Fw.step]
+    split
+    · exact ⟨rfl, h.1, h.2⟩
+    · exact hroute s _ rfl rfl rfl
+
+theorem Fw.rr_run (c : FwCfg) (evs : List FwEv) (s : Fw) (k : Nat)
+    (h : s.cursor = k + s.got.length ∧ ∀ i (hi : i < s.got.length), (s.got[i]).1 = (k + i) % max s.peers 1) :
+    let t := Fw.run c s evs
+    t.peers = s.peers ∧ t.cursor = k + t.got.length ∧ ∀ i (hi : i < t.got.length), (t.got[i]).1 = (k + i) % max t.peers 1 := by
+  induction evs generalizing s with
+  | nil => exact ⟨rfl, h.1, h.2⟩
+  | cons e r ih =>
+    have h1 := Fw.rr_step c s e k h
+    have h2 := ih (Fw.step c s e) ⟨h1.2.1, h1.2.2⟩
+    simp only [Fw.run, List.foldl_cons] at h2 ⊢
+    exact ⟨h2.1.trans h1.1, h2.2.1, h2.2.2⟩
+
 end Rzmq
